@@ -110,6 +110,7 @@ fn real_main() -> i32 {
             eprintln!("harness error: replay file names unknown property {prop:?}");
             2
         }
+        Some("outputs") if args.len() >= 3 => histcheck::outputs_cmd(Path::new(&args[1]), args[2].parse().unwrap_or(0)),
         Some("show") if args.len() >= 4 => {
             let seed: u64 = args[2].parse().unwrap_or(1);
             let index: u64 = args[3].parse().unwrap_or(0);
